@@ -23,11 +23,15 @@ pub mod c20;
 pub mod c21;
 pub mod c22;
 pub mod c23;
+pub mod c26;
 pub mod c27;
+pub mod c28;
+pub mod c29;
 pub mod c30;
 pub mod c31;
 pub mod c32;
 pub mod c33;
+pub mod c34;
 pub mod c35;
 pub mod c36;
 pub mod c37;
@@ -67,11 +71,15 @@ pub const REGISTRY: &[(&str, RunFn)] = &[
     ("C21", c21::run),
     ("C22", c22::run),
     ("C23", c23::run),
+    ("C26", c26::run),
     ("C27", c27::run),
+    ("C28", c28::run),
+    ("C29", c29::run),
     ("C30", c30::run),
     ("C31", c31::run),
     ("C32", c32::run),
     ("C33", c33::run),
+    ("C34", c34::run),
     ("C35", c35::run),
     ("C36", c36::run),
     ("C37", c37::run),
